@@ -8,8 +8,8 @@
 (* the ParseState value the caller of the incremental API holds.  This      *)
 (* module states exactly that, so that the round-trip properties (C01, C02, *)
 (* C10, C12), which are quantified over inputs, are also decided over       *)
-(* HISTORIES: whatever was called before, and however it ended, a call      *)
-(* returns what it returns on a fresh thread.                               *)
+(* HISTORIES: whatever was called before, on this thread or on another one, *)
+(* and however it ended, a call returns what it returns on a fresh thread.  *)
 (*                                                                          *)
 (* Results are tokens; the harness concretises a game name as a generated   *)
 (* replay and compares every result with the result of the same call made   *)
@@ -18,12 +18,15 @@
 EXTENDS Naturals, Sequences, FiniteSets, TLC, Json
 
 CONSTANTS Games,     \* names of the replays in play
-          MaxCalls,  \* bound on the length of a history
+          Threads,   \* the threads making calls (numbers)
+          KindsUsed, \* the one-shot calls in play (a subset of OneShot)
+          UseInc,    \* whether the incremental API is in play
+          MaxCalls,  \* bound on the length of a history (all threads together)
           Variant    \* "none", or a seeded design defect (for the self-test)
 
 VARIABLES hist,      \* the calls made so far with their results
-          open,      \* the incremental parse in progress: [g, fed], fed \in 0..2 (thirds of the events fed); g = "none": none
-          residue    \* what a failed call leaves behind in the library: always "none" in the design
+          open,      \* per thread, the incremental parse it holds: [g, fed], fed \in 0..2 (thirds of the events fed); g = "none": none
+          residue    \* what a failed call leaves behind in the library ([t, g]): always nothing in the design
 
 vars == <<hist, open, residue>>
 
@@ -48,40 +51,52 @@ Pure(k, g) ==
       [] OTHER -> <<"unit">>
 
 NoOpen == [g |-> "none", fed |-> 0]
-Init == hist = <<>> /\ open = NoOpen /\ residue = "none"
+NoResidueV == [t |-> 0, g |-> "none"]
+Init == hist = <<>> /\ open = [t \in Threads |-> NoOpen] /\ residue = NoResidueV
 
-Record(k, g, r) == hist' = Append(hist, [kind |-> k, g |-> g, res |-> r])
+Record(t, k, g, r) == hist' = Append(hist, [t |-> t, kind |-> k, g |-> g, res |-> r])
 
-Call(k, g) ==
-    /\ k \in OneShot
-    /\ LET r == IF Variant = "RESIDUE" /\ k = "write_slpp" /\ residue # "none"
-                THEN <<"slpp", residue>>       \* the seeded defect: frames of the game whose write failed
+(* the seeded defects: what a failed .slpp write leaves behind is picked up by the next .slpp write of the same
+   thread (RESIDUE: a thread-local scratch buffer) or of any thread (SHARED: a process-wide one) *)
+Leaks(t) == /\ residue # NoResidueV
+            /\ \/ Variant = "RESIDUE" /\ residue.t = t
+               \/ Variant = "SHARED"
+
+Call(t, k, g) ==
+    /\ k \in KindsUsed
+    /\ LET r == IF k = "write_slpp" /\ Leaks(t)
+                THEN <<"slpp", residue.g>>       \* frames of the game whose write failed
                 ELSE Pure(k, g)
-       IN Record(k, g, r)
-    /\ residue' = IF Variant = "RESIDUE" /\ k = "write_slpp_fail_late" THEN g
-                  ELSE IF k = "write_slpp" THEN "none" ELSE residue
+       IN Record(t, k, g, r)
+    /\ residue' = IF Variant \in {"RESIDUE", "SHARED"} /\ k = "write_slpp_fail_late" THEN [t |-> t, g |-> g]
+                  ELSE IF k = "write_slpp" /\ Leaks(t) THEN NoResidueV ELSE residue
     /\ UNCHANGED open
 
-IncBegin(g) == /\ open = NoOpen /\ open' = [g |-> g, fed |-> 0]
-               /\ Record("inc_begin", g, <<"unit">>) /\ UNCHANGED residue
-IncFeed == /\ open # NoOpen /\ open.fed < 2 /\ open' = [open EXCEPT !.fed = @ + 1]
-           /\ Record("inc_feed", open.g, <<"rows", open.g, open.fed + 1>>) /\ UNCHANGED residue
+IncBegin(t, g) == /\ open[t] = NoOpen /\ open' = [open EXCEPT ![t] = [g |-> g, fed |-> 0]]
+                  /\ Record(t, "inc_begin", g, <<"unit">>) /\ UNCHANGED residue
+IncFeed(t) == /\ open[t] # NoOpen /\ open[t].fed < 2 /\ open' = [open EXCEPT ![t].fed = @ + 1]
+              /\ Record(t, "inc_feed", open[t].g, <<"rows", open[t].g, open[t].fed + 1>>) /\ UNCHANGED residue
 \* feeds whatever is left, then the metadata: the game the one-shot reader returns (C12)
-IncFinish == /\ open # NoOpen /\ open' = NoOpen
-             /\ Record("inc_finish", open.g, <<"game", open.g, "nohash">>) /\ UNCHANGED residue
-IncDrop == /\ open # NoOpen /\ open' = NoOpen
-           /\ Record("inc_drop", open.g, <<"unit">>) /\ UNCHANGED residue
+IncFinish(t) == /\ open[t] # NoOpen /\ open' = [open EXCEPT ![t] = NoOpen]
+                /\ Record(t, "inc_finish", open[t].g, <<"game", open[t].g, "nohash">>) /\ UNCHANGED residue
+IncDrop(t) == /\ open[t] # NoOpen /\ open' = [open EXCEPT ![t] = NoOpen]
+              /\ Record(t, "inc_drop", open[t].g, <<"unit">>) /\ UNCHANGED residue
 
+\* (the threads are interchangeable: the first call is made by the first thread)
+MayCall(t) == hist = <<>> => \A y \in Threads : t <= y
 Next == /\ Len(hist) < MaxCalls
-        /\ \/ \E k \in OneShot, g \in Games : Call(k, g)
-           \/ \E g \in Games : IncBegin(g)
-           \/ IncFeed \/ IncFinish \/ IncDrop
+        /\ \E t \in Threads :
+             /\ MayCall(t)
+             /\ \/ \E k \in KindsUsed, g \in Games : Call(t, k, g)
+                \/ UseInc /\ (\E g \in Games : IncBegin(t, g))
+                \/ UseInc /\ (IncFeed(t) \/ IncFinish(t) \/ IncDrop(t))
 Spec == Init /\ [][Next]_vars
 
 -----------------------------------------------------------------------------
-TypeOK == /\ residue \in Games \cup {"none"}
-          /\ open = NoOpen \/ (open.g \in Games /\ open.fed \in 0..2)
+TypeOK == /\ residue.g \in Games \cup {"none"}
+          /\ \A t \in Threads : open[t] = NoOpen \/ (open[t].g \in Games /\ open[t].fed \in 0..2)
           /\ Len(hist) <= MaxCalls
+          /\ KindsUsed \subseteq OneShot
 
 (* every one-shot result is the result of that call on a fresh thread *)
 HistoryIndependent ==
@@ -97,10 +112,10 @@ IncUndisturbed ==
 (* the two skip routes give the same token (C10), the two full routes the same game up to the hash *)
 SkipRoutesAgree == \A g \in Games : Pure("read_slp_skip", g) = Pure("read_slpp_skip", g)
 
-NoResidue == residue = "none"
+NoResidue == residue = NoResidueV
 
 Inv == TypeOK /\ HistoryIndependent /\ IncUndisturbed /\ SkipRoutesAgree /\ NoResidue
 
 Full == Len(hist) = MaxCalls
-Export == Full => PrintT(<<"SESSION", ToJson([calls |-> [i \in 1..Len(hist) |-> <<hist[i].kind, hist[i].g>>]])>>)
+Export == Full => PrintT(<<"SESSION", ToJson([calls |-> [i \in 1..Len(hist) |-> <<hist[i].kind, hist[i].g, hist[i].t>>]])>>)
 =============================================================================
